@@ -599,9 +599,7 @@ def b_eigensolve_sparse(V, cfg):
     import pymoto as pym
     from pymoto.modules import linalg as _la
     n, k = 3, 2
-    W = V.reals("W", n, positive=True, default=None)
-    if not V.symbolic:
-        W = np.array([float(V.env.get("W_%d" % i, 0.5 + i)) for i in range(n)])
+    W = np.array([V.real("W_%d" % i, positive=True, default=0.5 + i) for i in range(n)], dtype=object if V.symbolic else float)
     t = V.real("t", default=0.4)
     s_ = V.real("s", default=-0.3) if cfg.get("rotations", 2) == 2 else (V.const(0) if V.symbolic else 0.0)
 
